@@ -1538,7 +1538,7 @@ pub fn generate(thorough: bool, rng: &mut Rng, ops: &mut Vec<String>, stats: &mu
         ops.push(format!("c01 big {} {shape} {n} {}", cfg.tokens().join(" "), rng.below(1 << 32)));
     }
     // end to end: the classic mix, shaped scenarios on the in-memory source, and real directories
-    let (n_classic, n_shaped, n_local) = if thorough { (1500, 120, 400) } else { (150, 24, 60) };
+    let (n_classic, n_shaped, n_local) = if thorough { (1500, 120, 400) } else { (200, 40, 100) };
     for _ in 0..n_classic {
         if let Some(l) = gen_case("classic", false, thorough, rng, stats) {
             ops.push(l);
